@@ -1535,11 +1535,12 @@ def explore(fn, max_paths=2000, time_budget=None, ctx_hook=None, want_nice=True,
     """
     stack = [[]]
     results = []
-    t0 = time.time()
+    # the budget is CPU time of this worker process (a loaded machine must not change what gets explored)
+    t0 = time.process_time()
     complete = True
     n_sat = 0
     while stack:
-        if len(results) >= max_paths or (time_budget and time.time() - t0 > time_budget):
+        if len(results) >= max_paths or (time_budget and time.process_time() - t0 > time_budget):
             complete = False
             break
         prefix = stack.pop()
